@@ -491,9 +491,14 @@ func (p *RegProcessor) processBdReq(c2sPayload *pb.C2SWrapper) (*pb.Registration
 	}
 
 	phantomSubnetSupportsRandPort := true
-	if c2s.GetV4Support() {
+	if c2s.GetV4Support() || c2s.GetV6Support() {
+		// Take the read lock once for both selections: a second RLock issued while a
+		// ReloadSubnets writer is waiting would block behind it and deadlock.
 		p.selectorMutex.RLock()
 		defer p.selectorMutex.RUnlock()
+	}
+
+	if c2s.GetV4Support() {
 		phantom4, err := p.ipSelector.Select(
 			cjkeys.ConjureSeed,
 			uint(c2s.GetDecoyListGeneration()), //generation type uint
@@ -511,8 +516,6 @@ func (p *RegProcessor) processBdReq(c2sPayload *pb.C2SWrapper) (*pb.Registration
 	}
 
 	if c2s.GetV6Support() {
-		p.selectorMutex.RLock()
-		defer p.selectorMutex.RUnlock()
 		phantom6, err := p.ipSelector.Select(
 			cjkeys.ConjureSeed,
 			uint(c2s.GetDecoyListGeneration()),
